@@ -18,7 +18,10 @@ VARIABLES chain, tampered
 Refs  == {"refs/heads/main", "refs/heads/feat", PolicyRef, StagingRef}
 Ups   == {"u1", "u2"}
 
-NextNum(c) == IF c = <<>> THEN 1 ELSE c[Len(c)].num + 1
+\* the number after the tip's; a non-entry commit at the tip carries no number, an entry appended on top of it is numbered
+\* as if the non-entry had taken one (numbers stay unique, which is what makes number-bounded queries meaningful)
+LastNum(c) == LET S == {i \in 1..Len(c) : c[i].k # "garb"} IN IF S = {} THEN 0 ELSE c[Max(S)].num
+NextNum(c) == IF c = <<>> THEN 1 ELSE IF c[Len(c)].k = "garb" THEN LastNum(c) + 2 ELSE c[Len(c)].num + 1
 
 Base(k, ref, up, tg, skip, num) ==
     [k |-> k, ref |-> ref, t |-> 1, up |-> up, tg |-> tg, skip |-> skip, num |-> num, xp |-> FALSE]
